@@ -147,6 +147,8 @@ pub struct Cov {
     pub runs: u64,
     pub l2_decisions: u64,
     pub instantiate_cases: u64,
+    /// when set, distinct fingerprints are kept only for this property (the one being checked)
+    pub only: Option<usize>,
 }
 
 pub const DISTINCT_CAP: usize = 1_500_000;
@@ -162,7 +164,7 @@ impl Cov {
         if let Some(i) = prop_index(prop) {
             let p = &mut self.props[i];
             p.evaluations += 1;
-            if nontrivial && p.distinct.len() < DISTINCT_CAP {
+            if nontrivial && self.only.map(|o| o == i).unwrap_or(true) && p.distinct.len() < DISTINCT_CAP {
                 p.distinct.insert(h);
             }
         }
@@ -267,9 +269,10 @@ fn attr<'a>(attrs: &'a [(String, String)], k: &str) -> Option<&'a str> {
 }
 
 fn class_state(class_json: &str) -> String {
-    if class_json.contains("Ready") {
+    let l = class_json.to_ascii_lowercase();
+    if l.contains("ready") || l.contains("approved") {
         "ready".into()
-    } else if class_json.contains("PendingIssuerApproval") {
+    } else if l.contains("pending") {
         "pending".into()
     } else {
         "plain".into()
